@@ -1036,54 +1036,71 @@ void MEDDLY::saturation_set_mtrel<EOP, ATYPE>::fillSplit(int L, node_handle bp)
         splout << "\n";
 #endif
 
+        rel_node* Brn = nullptr;
         if (ABS(arg2F->getNodeLevel(mxdn)) < k) {
+            if (0==mxdn || arg2F->isIdentityReduced()) {
+                //
+                // Skipped level means identity at this level
+                //
 #ifdef DEBUG_SPLIT_FULL
-            splout << "    no dependency on this level\n";
-            splout << "    exactly: 0\n";
+                splout << "    no dependency on this level\n";
+                splout << "    exactly: 0\n";
 #endif
-            top_exactly[k].set(0);
-            continue;
-        }
+                top_exactly[k].set(0);
+                continue;
+            }
+            //
+            // Not identity reduced: a skipped level means this level
+            // is unconstrained, so every diagonal entry is the node itself
+            //
+            diag = mxd;
+        } else {
+            Brn = arg2F->buildRelNode(mxdn);
 
-        rel_node* Brn = arg2F->buildRelNode(mxdn);
-
-        // Determine common diagonal
-        diag.set(arg2F->linkNode(Brn->getDiagonal(0)));
-        const unsigned maxi = arg2F->getLevelSize(k);
-        for (unsigned i=1; i<maxi; i++) {
-            mxdIntersection->compute(k, ~0,
-                    nothing, diag.getNode(),
-                    nothing, Brn->getDiagonal(i),
-                    diag.setEdgeValue(), resp
-            );
-            diag.set(resp);
-        }
+            // Determine common diagonal
+            diag.set(arg2F->linkNode(Brn->getDiagonal(0)));
+            const unsigned maxi = arg2F->getLevelSize(k);
+            for (unsigned i=1; i<maxi; i++) {
+                mxdIntersection->compute(k, ~0,
+                        nothing, diag.getNode(),
+                        nothing, Brn->getDiagonal(i),
+                        diag.setEdgeValue(), resp
+                );
+                diag.set(resp);
+            }
 
 #ifdef DEBUG_SPLIT_FULL
-        splout << "    diagonals: ";
-        for (unsigned i=0; i<maxi; i++) {
-            if (i) splout << ", ";
-            splout << Brn->getDiagonal(i);
-        }
-        splout << "\n";
-        splout << "    common  : ";
-        diag.show(splout);
-        splout << "\n";
+            splout << "    diagonals: ";
+            for (unsigned i=0; i<maxi; i++) {
+                if (i) splout << ", ";
+                splout << Brn->getDiagonal(i);
+            }
+            splout << "\n";
+            splout << "    common  : ";
+            diag.show(splout);
+            splout << "\n";
 #endif
+        }
 
 
         // Set relation with top=k to relation minus common diagonal
         // and continue the iteration with the common diagonal
+        // The common diagonal is a function of the levels below k.
+        // Unless the forest is identity reduced, "identity at level k,
+        // then the common diagonal" must be built explicitly.
+        dd_edge lifted(arg2F);
+        lifted.set( arg2F->makeIdentitiesTo(
+            arg2F->linkNode(diag.getNode()), k-1, k, -1) );
         mxdDifference->compute(k, ~0,
             nothing, mxd.getNode(),
-            nothing, diag.getNode(),
+            nothing, lifted.getNode(),
             top_exactly[k].setEdgeValue(), resp
         );
         top_exactly[k].set(resp);
         mxd = diag;
 
         // cleanup
-        arg2F->doneRelNode(Brn);
+        if (Brn) arg2F->doneRelNode(Brn);
     }
     top_at_or_below[0].set(0);
     top_exactly[0].set(0);
